@@ -97,7 +97,10 @@ def gen_cases(rng, tier):
             fprops += [['twin', b, c] for a, b, c in fprops if a == pkg[0]['name']]
             tfp_fields += [['twin', b] for a, b in tfp_fields if a == pkg[0]['name']]
         cases.append({'kind': 'roundtrip', 'pkg': pkg, 'format': rng.pick(['csv', 'csv', 'json']), 'zip': rng.chance(0.3),
-                      'hashpath': hashpath, 'tfp': tfp, 'tfp_fields': tfp_fields, 'fprops': fprops})
+                      'hashpath': hashpath, 'tfp': tfp, 'tfp_fields': tfp_fields, 'fprops': fprops,
+                      # a later step of the same flow that edits the rows in place (what was dumped is what entered the dumper),
+                      # and the dump read back through the documented env:// form of the source
+                      'mutate_after': rng.chance(0.3), 'via_env': rng.chance(0.25)})
     # the CSV layer alone: the model of Python's csv against the csv module, on tables and on arbitrary texts
     alpha = ['a', 'b', ',', '"', '\r', '\n', ' ', 'é']
     for i in range({'quick': 60, 'thorough': 600, 'search': 100}[tier]):
@@ -166,7 +169,8 @@ def run_impl(case):
     out = {}
     try:
         with quiet():
-            Flow(Src(res), DF.dump_to_zip(target, **kw) if case['zip'] else DF.dump_to_path(target, **kw)).process()
+            Flow(Src(res), DF.dump_to_zip(target, **kw) if case['zip'] else DF.dump_to_path(target, **kw),
+                 *([_mutate] if case.get('mutate_after') else [])).process()
         files = {}
         if case['zip']:
             with zipfile.ZipFile(target) as z:
@@ -185,6 +189,12 @@ def run_impl(case):
         with quiet():
             if case['zip']:
                 r, dp, _ = Flow(DF.load(target, format='datapackage')).results()
+            elif case.get('via_env'):
+                os.environ['VERIF_C03_DP'] = os.path.join(target, 'datapackage.json')
+                try:
+                    r, dp, _ = Flow(DF.load('env://VERIF_C03_DP')).results()
+                finally:
+                    del os.environ['VERIF_C03_DP']
             else:
                 r, dp, _ = Flow(DF.load(os.path.join(target, 'datapackage.json'))).results()
         out['loaded'] = [rows_enc(x) for x in r]
@@ -197,6 +207,21 @@ def run_impl(case):
         out['load_error'] = '%s: %s' % (type(c).__name__, str(c)[:300])
     shutil.rmtree(base, ignore_errors=True)
     return out
+
+
+def _mutate(row):
+    for k in list(row):
+        v = row[k]
+        if isinstance(v, str):
+            row[k] = v + ' (edited downstream)'
+        elif isinstance(v, list):
+            v.append('edited downstream')
+        elif isinstance(v, dict):
+            v['edited'] = 'downstream'
+        elif isinstance(v, bool):
+            row[k] = not v
+        elif isinstance(v, (int, decimal.Decimal)):
+            row[k] = v + 1
 
 
 def same_value(a, b):
